@@ -94,6 +94,10 @@ func TestVerifC14(t *testing.T) {
 				} else {
 					w.Header().Set("Content-Type", "application/octet-stream")
 				}
+				if hl, ok := c["head_len"]; ok {
+					// answer to a HEAD request: the resource's length is declared, no body follows
+					w.Header().Set("Content-Length", strconv.FormatInt(vInt(hl), 10))
+				}
 				w.WriteHeader(respStatus)
 				for _, ch := range respChunks {
 					w.Write(ch)
@@ -116,6 +120,9 @@ func TestVerifC14(t *testing.T) {
 			}
 			body := &vChunkReader{chunks: vHexList(c["req_chunks"]), fail: vBool(c["abort"])}
 			req := httptest.NewRequest(http.MethodPost, "/", body)
+			if _, ok := c["head_len"]; ok {
+				req = httptest.NewRequest(http.MethodHead, "/", nil)
+			}
 			w := httptest.NewRecorder()
 			filesDuring := []int64{}
 			_ = filesDuring
@@ -132,6 +139,7 @@ func TestVerifC14(t *testing.T) {
 			res["hit"] = hit
 			res["got"] = vHex(got)
 			res["files_after"] = vDirSizes(tmp)
+			res["clen"] = w.Header().Get("Content-Length")
 		case "abort":
 			// a response that has already spilled to disk when the exchange is torn down: the target drops
 			// the connection mid-body ("target") or the client goes away ("client"). Needs a real front
